@@ -37,6 +37,8 @@ BuildTableRef(c) == c
 
 BuildWith(w) ==
   [k |-> "with", recursive |-> Get(w, "recursive", FALSE),
+   search |-> IF Has(w, "search") THEN Some(w.search) ELSE NoneV,      \* [order, e, set]
+   cycle |-> IF Has(w, "cycle") THEN Some(w.cycle) ELSE NoneV,         \* [e, set, using]
    ctes |-> [i \in DOMAIN w.ctes |-> [name |-> w.ctes[i].name, cols |-> Get(w.ctes[i], "cols", <<>>),
                                       mat |-> IF Has(w.ctes[i], "mat") THEN (IF w.ctes[i].mat THEN "yes" ELSE "no") ELSE "none", q |-> BuildStmt(w.ctes[i].q)]]]
 
@@ -114,11 +116,20 @@ ApplyDelete(s, c) ==
     [] c.op = "returning" -> [s EXCEPT !.returning = Some(c.r)]
     [] c.op = "with_cte" -> [s EXCEPT !.with = BuildWith(c.w)]
 
+\* WindowStatement as a builder of its own (window.rs): partitions, orders, frame
+NewWindowDef == [kind |-> "window", partition |-> <<>>, order |-> <<>>, frame |-> NoneV]
+ApplyWindowDef(s, c) ==
+  CASE c.op = "partition_by" -> [s EXCEPT !.partition = Append(@, c.e)]
+    [] c.op = "order_by" -> [s EXCEPT !.order = Append(@, OrderRec(c))]
+    [] c.op = "frame" -> [s EXCEPT !.frame = c.f]
+    [] c.op = "clear_order_by" -> [s EXCEPT !.order = <<>>]
+
 ApplyCall(s, c) ==
   CASE s.kind = "select" -> ApplySelect(s, c) [] s.kind = "insert" -> ApplyInsert(s, c)
     [] s.kind = "update" -> ApplyUpdate(s, c) [] s.kind = "delete" -> ApplyDelete(s, c)
+    [] s.kind = "window" -> ApplyWindowDef(s, c)
 ApplyAll(s, calls, i) == IF i > Len(calls) THEN s ELSE ApplyAll(ApplyCall(s, calls[i]), calls, i + 1)
-NewOf(kind) == CASE kind = "select" -> NewSelect [] kind = "insert" -> NewInsert [] kind = "update" -> NewUpdate [] kind = "delete" -> NewDelete
+NewOf(kind) == CASE kind = "select" -> NewSelect [] kind = "insert" -> NewInsert [] kind = "update" -> NewUpdate [] kind = "delete" -> NewDelete [] kind = "window" -> NewWindowDef
 BuildStmt(j) ==
   IF j.kind = "with" THEN [kind |-> "withq", w |-> BuildWith(j.w), q |-> BuildStmt(j.q)]
   ELSE ApplyAll(NewOf(j.kind), j.calls, 1)
@@ -195,6 +206,11 @@ RWith(B, O, w) ==
      \o "AS " \o
      (IF B = "mysql" \/ w.ctes[i].mat = "none" THEN "" ELSE (IF w.ctes[i].mat = "yes" THEN "" ELSE "NOT") \o " MATERIALIZED ")
      \o "(" \o RStmt(B, O, w.ctes[i].q) \o ") "])
+  \* prepare_with_clause_recursive_options: PostgreSQL only (MySQL / SQLite override it to nothing)
+  \o (IF B = "pg" /\ w.recursive
+      THEN (IF IsNone(w.search) THEN "" ELSE "SEARCH " \o w.search.v.order \o " FIRST BY " \o RExpr(B, O, w.search.v.e) \o " SET " \o Q(B, w.search.v.set) \o " ")
+           \o (IF IsNone(w.cycle) THEN "" ELSE "CYCLE " \o RExpr(B, O, w.cycle.v.e) \o " SET " \o Q(B, w.cycle.v.set) \o " USING " \o Q(B, w.cycle.v.using) \o " ")
+      ELSE "")
 
 RLock(B, O, lk) ==
   IF B = "sqlite" THEN ""
@@ -339,6 +355,11 @@ RStmt(B, O, s) ==
   CASE s.kind = "select" -> RSelect(B, O, s) [] s.kind = "insert" -> RInsert(B, O, s)
     [] s.kind = "update" -> RUpdate(B, O, s) [] s.kind = "delete" -> RDelete(B, O, s)
     [] s.kind = "withq" -> RWith(B, O, s.w) \o RStmt(B, O, s.q)
+    \* a window definition is observed inside SELECT SUM("a") OVER ( .. ) FROM "t1"
+    [] s.kind = "window" ->
+         RSelect(B, O, ApplyAll(NewSelect, <<[op |-> "expr_window", e |-> [k |-> "fn", f |-> "Sum", args |-> <<[k |-> "col", n |-> "a"]>>],
+                                              w |-> [partition |-> s.partition, order |-> s.order, frame |-> s.frame]],
+                                             [op |-> "from", t |-> <<"t1">>]>>, 1))
 
 (************  Writer: String vs SqlWriterValues (src/prepare.rs)  *********)
 \* ToParams(B, text): the text rendered in parameter mode carries each bound
